@@ -721,6 +721,7 @@ func C05(run *hx.Run) {
 		{"page_size": 1024, "rows": 100, "frag": true, "big_density": 0.1, "big_extra": []int{9000}},
 		{"page_size": 512, "rows": 500, "features": []string{"plain", "alias", "wr"}},
 		{"page_size": 4096, "rows": 120, "big_density": 0.05, "big_extra": []int{20000}},
+		{"page_size": 1024, "rows": 200, "features": []string{"customcoll", "wr", "misc"}}, // valid file with an application-defined collation
 	}
 	for i, pr := range genProfiles {
 		d, err := hx.BuildDB(o, dir, fmt.Sprintf("seed%d", i), pr, run.Seed*17+int64(i))
